@@ -184,9 +184,9 @@ PROPS = {
              "R-BLOCK-TABLES(1,2), R-RESOLVER-DETAILS, R-SCOPED-PENDING, R-RESOLVE-CLEARS.",
              "firing semantics.",
              "table agreement + container scoping analysis"),
-    "C20": P([ENCW, INJAT, LOCADDR, ("mutators", "locals_owner", {}), EMITORD, FINISH, MODEHELP, ("misc", "if_chain", {}), LCG, SAVESIB, SCOPED, WALK, SPFLAG, CLEARCOH, MODEF, BLOCKT, DETAILS, ("misc", "flag_reset", {}), ("misc", "dead_after_sink", {}), CLEARS],
+    "C20": P([ENCW, INJAT, LOCADDR, ("special", "per_function_state", {}), ("mutators", "locals_owner", {}), EMITORD, FINISH, MODEHELP, ("misc", "if_chain", {}), LCG, SAVESIB, SCOPED, WALK, SPFLAG, CLEARCOH, MODEF, BLOCKT, DETAILS, ("misc", "flag_reset", {}), ("misc", "dead_after_sink", {}), CLEARS],
              "necessary: branch tables agree, target id arithmetic, flag protocol (set/reset), flag reset inside guard, no After code on the final end",
-             "R-BLOCK-TABLES(1,3), R-RESOLVER-DETAILS, R-FLAG-RESET, R-DEAD-AFTER-SINK, R-RESOLVE-CLEARS.",
+             "R-BLOCK-TABLES(1,3), R-RESOLVER-DETAILS, R-FLAG-RESET, R-DEAD-AFTER-SINK, R-RESOLVE-CLEARS, R-LOC-ADDRESS, R-PER-FUNCTION-STATE.",
              "exactly-once at run time.",
              "table agreement + path enumeration"),
     "C21": P([ENCW, INJAT, EMITORD, FLF, SCOPED, FINISH, MODESET, SIB, MODEHELP, LCG, WALK, SPFLAG, CLEARCOH, MODEF, BLOCKT, DETAILS, CLEARS, CLEARCOH],
